@@ -295,13 +295,17 @@ pub struct TrafficCase {
     /// fault_percentage of the server (deliberately corrupted replies are still replies: they are sent and must be counted)
     #[serde(default)]
     pub fault: u8,
+    /// > 0: status_interval is 1 s (statistics timer every 100 ms) and after every step the server idles across
+    /// this many timer periods before the totals are read
+    #[serde(default)]
+    pub ticks: u8,
 }
 
 fn check_traffic(ctx: &mut Ctx, c: &TrafficCase) -> Res {
     ctx.eval();
     // a free TCP port for the health check (the worker runs in its own network namespace, so any port is ours)
     let hc_port = if c.health_checks > 0 { std::net::TcpListener::bind("127.0.0.1:0").ok().and_then(|l| l.local_addr().ok()).map(|a| a.port()) } else { None };
-    let cfg = LabCfg { seed: c.seed.0.clone(), batch_size: c.batch_size, client_stats: c.stats, health_port: hc_port, fault: c.fault, ..Default::default() };
+    let cfg = LabCfg { seed: c.seed.0.clone(), batch_size: c.batch_size, client_stats: c.stats, health_port: hc_port, fault: c.fault, status_interval: if c.ticks > 0 { Duration::from_secs(1) } else { Duration::from_secs(600) }, ..Default::default() };
     let mut lab = match Lab::new(cfg, 16) {
         Ok(l) => l,
         Err(e) => return ctx.fail("server-new-failed", e),
@@ -357,6 +361,43 @@ fn check_traffic(ctx: &mut Ctx, c: &TrafficCase) -> Res {
             }
             bytes += r.len() as u64;
         }
+        if c.ticks > 0 {
+            // idle across timer periods: the worker publishes/clears per-client snapshots, aggregated totals stay
+            let end = std::time::Instant::now() + Duration::from_millis(105 * c.ticks.min(3) as u64);
+            while std::time::Instant::now() < end {
+                if let Err(p) = lab.idle_pump(1) {
+                    return ctx.fail(format!("process-events-panic|{}", panic_site(&p)), p);
+                }
+            }
+        }
+    }
+    if c.ticks > 0 && c.stats {
+        // per-client mode across timer periods: what the worker still holds plus every snapshot it published
+        let lo: IpAddr = "127.0.0.1".parse().unwrap();
+        let mut sum = counters(lab.server.verif_stats().stats_for_client(&lo));
+        let mut snaps = 0;
+        while let Some(snap) = lab.queue.pop() {
+            snaps += 1;
+            for cs in &snap {
+                if cs.ip_addr != lo {
+                    return ctx.fail("snapshot-for-unknown-address", format!("{:?}", cs.ip_addr));
+                }
+                let x = counters(Some(cs));
+                for i in 0..9 {
+                    sum[i] += x[i];
+                }
+            }
+        }
+        let want = [ietf, classic, datagrams - classic - ietf, 0, 0, health_done, ietf, classic, bytes];
+        if sum != want {
+            return ctx.fail(
+                "snapshots-plus-held-differ-from-traffic",
+                format!("client_stats on, {} published snapshots: held + published [rfc, classic, invalid, failed, retried, health, rfc-resp, classic-resp, bytes] = {:?}, the sockets saw {:?}", snaps, sum, want),
+            );
+        }
+        ctx.class(&format!("c17:traffic:stats=true:across-timer-periods:snapshots={}", snaps.min(3)));
+        ctx.nontrivial(&("traffic-ticks", datagrams, classic, ietf, bytes, snaps));
+        return Ok(());
     }
     let st = lab.server.verif_stats();
     let got = totals(st);
@@ -378,6 +419,9 @@ fn check_traffic(ctx: &mut Ctx, c: &TrafficCase) -> Res {
         if per[0] != ietf || per[1] != classic || per[5] != health_done || per[8] != bytes || st.total_unique_clients() != 1 {
             return ctx.fail("per-client-entry-differs-from-traffic", format!("entry for 127.0.0.1 = {:?}, unique clients {}", per, st.total_unique_clients()));
         }
+    }
+    if c.ticks > 0 {
+        ctx.class("c17:traffic:stats=false:across-timer-periods");
     }
     ctx.class(&format!("c17:traffic:stats={}:fault={}:{}", c.stats, if c.fault > 0 { "on" } else { "off" }, if classic > 0 && ietf > 0 && datagrams > classic + ietf { "mixed+invalid" } else { "simple" }));
     ctx.nontrivial(&("traffic", c.stats, datagrams, classic, ietf, bytes));
@@ -444,7 +488,7 @@ pub fn run(ctx: &mut Ctx) -> Vec<Violation> {
     out.extend(run_prop(ctx, "worker-splits-csv", t.pick(400, 8_000), 200, split_csv, |ctx, c| check_split(ctx, c)));
     // traffic served by an in-process server
     let step = vec_of((0u8..16, prop_oneof![3 => std_req().prop_map(Dgram::Std), 2 => any_dgram()]).prop_map(|(sock, d)| Send { sock, d }).boxed(), 0usize..=40);
-    let traffic = (seed32(), prop::sample::select(vec![1u8, 3, 16, 64]), prop::bool::weighted(0.15), proptest::collection::vec(step, 1..=3), prop_oneof![3 => Just(0u8), 1 => 1u8..=4], prop_oneof![3 => Just(0u8), 1 => 1u8..=50]).prop_map(|(seed, batch_size, stats, steps, health_checks, fault)| TrafficCase { health_checks, seed, batch_size, stats, steps, fault });
+    let traffic = (seed32(), prop::sample::select(vec![1u8, 3, 16, 64]), prop::bool::weighted(0.15), proptest::collection::vec(step, 1..=3), prop_oneof![3 => Just(0u8), 1 => 1u8..=4], prop_oneof![3 => Just(0u8), 1 => 1u8..=50], prop_oneof![24 => Just(0u8), 1 => 1u8..=2]).prop_map(|(seed, batch_size, stats, steps, health_checks, fault, ticks)| TrafficCase { health_checks, seed, batch_size, stats, steps, fault, ticks });
     out.extend(run_prop(ctx, "traffic", t.pick(8_000, 64_000), 200, traffic, |ctx, c| {
         ctx.sample("traffic", 1, &(c.stats, c.batch_size, c.steps.iter().map(|s| s.len()).collect::<Vec<_>>()));
         check_traffic(ctx, c)
